@@ -80,7 +80,7 @@ theorem afterStopProc_plen (a : After) : (afterStopProc s i a).procs.length ≤ 
       · rw [stopFinish_plen]; simp
 
 /-- the rest of `stop()` spawns nothing -/
-theorem afterStopProc_stop_plen (w : Option Nat) : (afterStopProc s i (.stop w)).procs.length = s.procs.length := by
+theorem afterStopProc_stop_plen (w : List Nat) : (afterStopProc s i (.stop w)).procs.length = s.procs.length := by
   unfold afterStopProc
   simp only
   split
@@ -153,7 +153,9 @@ theorem stepT_spawns_le_one (s : State) (i : Nat) (t : Thread) : (stepT s i t).p
   · split
     · simp
     · rw [stopFinish_plen]; omega
-  · rw [stopFinish_plen]; omega
+  · split
+    · simp
+    · rw [stopFinish_plen]; omega
   · split
     · simp
     · split
@@ -242,7 +244,9 @@ theorem stepT_spawn_site (s : State) (i : Nat) (t : Thread) (h : s.procs.length 
   · split at h
     · simp at h
     · rw [stopFinish_plen] at h; omega
-  · rw [stopFinish_plen] at h; omega
+  · split at h
+    · simp at h
+    · rw [stopFinish_plen] at h; omega
   · split at h
     · simp at h
     · split at h
